@@ -24,14 +24,18 @@ PROPS = {
         bounds="fe64 limb arithmetic (add, sub, neg, negate_mut, mul, square, square_and_double, mul_small<121666>, to_packed, from_bytes): ALL limb vectors in class LOOSE "
                "(each limb <= 2^53-76), decided by z3 on the polynomial encoding of the MIR; bit-level obligations (decode/encode canonical, ==, sign, zero test, canonical "
                "scalar decoder, scalar bytes/bits/nibbles): all 2^256 (pairs of) byte strings by CBMC",
-        outside="inversion / pow25523 addition chains, group formulas, tables and scalar multiplication are separate obligations (see the harness list of this run; anything not listed there is not claimed)",
+        outside="precomputed tables (every entry is the multiple of B it stands for), GePrecomp::select (CBMC runs out of memory on the 30 KB constant table), scalar64 Barrett "
+                "reduction / multiplication mod L (z3 does not finish), point decode-encode round trip as a whole; scalar multiplication is covered by its digit/walk skeletons (C13/C14) "
+                "plus the group formulas here, under the table contract",
         assumptions=_MS,
         trusted=["specification formulas in mirsym/specs.py (value = sum limb_i 2^(51 i), congruences mod 2^255-19) and harness/incrate/fe.rs, scalar.rs (multi-word comparisons)"],
         explanation="limb arithmetic by MIR -> polynomial -> z3; bit-level encoders/decoders by CBMC at full width",
         level_text="Every checked arithmetic operation of the fe64 limb functions is proven overflow-free, every output limb proven inside class TIGHT, and the value "
                    "congruence mod 2^255-19 proven, for ALL inputs in class LOOSE (z3 on the MIR-derived encoding). to_packed is proven to return the canonical "
                    "representative (< p) for all LOOSE limbs. Decode/encode, ==, is_negative, is_nonzero and the canonical scalar decoder are decided by CBMC for all byte strings.",
-        level_note="Products of two symbolic limbs are abstracted to bounded integers (sound for 'holds'). Group law / tables / scalar multiplication: see bounds.",
+        level_note="Products of two symbolic limbs are abstracted to bounded integers (sound for 'holds'). Group formulas (add/sub with cached and precomputed operands, doubling, "
+                   "to_cached), Fe::invert = z^(p-2) and pow25523 = z^((p-5)/8) are decided as polynomial identities over GF(p) on the real MIR with the field calls hooked "
+                   "(curve membership used through d x^2 y^2 -> y^2 - x^2 - 1). scalar64::add decided for all reduced operands.",
         extra=[mirsym_extra.make_extra("C15")],
     ),
 }
@@ -68,7 +72,9 @@ PROPS["C13"] = dict(
     explanation="RFC 8032 5.1.5/5.1.6 as event-sequence assertions over the real keypair/signature/signature_extended/exchange code",
     level_text="clamp_scalar for all inputs; keypair = seed || enc([clamp(H(seed)[0..32])]B); signature and signature_extended: r = H(prefix||M) mod L, R = enc([r]B), "
                "h = H(R||A||M) mod L, S = (h*a + r) mod L, output R||S, with every operand checked byte for byte; exchange = X25519(clamp(H(seed)[0..32]), u(y)). Decided by CBMC for all keys.",
-    level_note="Primitives recorded (arbitrary results), so the wiring holds for every behaviour of the primitives. Message length bound 3 bytes (address-identified).",
+    level_note="Primitives recorded (arbitrary results), so the wiring holds for every behaviour of the primitives. Message length bound 3 bytes (address-identified). "
+               "scalar64::add is decided by mirsym for all reduced operands; Barrett reduction / multiplication mod L (scalar64 mul, reduce_from_wide_bytes) did not finish in z3 and are outside the claim.",
+    extra=[mirsym_extra.make_extra("C13")],
 )
 PROPS["C14"] = dict(
     prefixes=["c14_", "c15_scalar_bytes_bits_nibbles"],
@@ -81,7 +87,9 @@ PROPS["C14"] = dict(
     explanation="verify's gate structure and final comparison as event-sequence assertions; the canonical scalar decoder at full width",
     level_text="verify returns true exactly when the key decodes, is not the all-zero string, S < L (decoder decided for every 32-byte string, so S+L, S+2L.. are refused) and ALL 32 bytes "
                "of the re-encoded [h]A'+[S]B equal R, with h = H(R||A||M) mod L; decided by CBMC for all (key, signature) pairs with the group primitives recorded.",
-    level_note="Group arithmetic recorded (arbitrary result): the verdict logic holds for every result of the double-scalar product.",
+    level_note="Group arithmetic recorded (arbitrary result) in the verdict harness; the group formulas used by the double-scalar walk (add/sub of cached and precomputed "
+               "points, doubling) and the (p-5)/8 power chain of decompression are decided separately as ring identities (mirsym ring-level specs in the evidence).",
+    extra=[mirsym_extra.make_extra("C14")],
 )
 
 PROPS["C12"] = dict(
@@ -89,13 +97,14 @@ PROPS["C12"] = dict(
     level="model_checking",
     bounds="scalar side: all 2^256 scalars and all u strings (field operations recorded); field side: fe64 from_bytes / to_packed / add / sub / mul / square / mul_small<121666> for ALL limbs in "
            "class LOOSE (mirsym), decode-encode canonical for all 2^256 strings (CBMC)",
-    outside="the ladder-step formulas as ring identities and the inversion addition chain (exponent p-2) are ring-level obligations listed in the evidence only when that engine ran; "
-            "'both parties derive the same secret' is a theorem about the RFC function, not about this code",
+    outside="'both parties derive the same secret' is a theorem about the RFC function, not about this code; composition of the three factors (schedule x step algebra x field "
+            "arithmetic) is the paper argument of DESIGN.md 4/C12",
     assumptions=["stubs (schedule harnesses): Fe::from_bytes/to_bytes/add/sub/mul/square/mul_small/invert/maybe_swap_with -> loop-free recorders; their semantics are C15/C18 obligations"] + _MS,
     trusted=[],
     explanation="X25519 = (clamp + bit schedule + swap logic) x (ladder step algebra) x (field arithmetic): the first and third factors are decided here",
     level_text="For every scalar: clamping, bit order 254..0, swap ^= k_t conditional-swap schedule on both coordinate pairs, exactly 255 steps, final swap and encode(invert(z2)*x2), "
                "for the general and the fixed-base function (u = 9); non-canonical u (bit 255 set, values >= p) handled by from_bytes/to_packed proven for all inputs.",
-    level_note="Ladder-step polynomial identities and the inversion chain are not part of this check unless listed in the evidence.",
+    level_note="The ladder step of both functions is decided as four polynomial identities against RFC 7748 (a24 = 121665) on the loop-body fragment of the real MIR, and "
+               "Fe::invert is decided to compute z^(p-2) by exponent tracking.",
     extra=[mirsym_extra.make_extra("C12")],
 )
